@@ -8,6 +8,7 @@ import (
 	"encoding/json"
 	"flag"
 	"fmt"
+	"go/ast"
 	"go/parser"
 	"go/printer"
 	"go/token"
@@ -25,11 +26,34 @@ var rewrites = map[string]string{
 	"github.com/anacrolix/chansync": mod + "/internal/verifshim/chansync",
 }
 
+// astutilAddImport appends an import spec to the first import declaration of f.
+func astutilAddImport(f *ast.File, path string) {
+	for _, im := range f.Imports {
+		if v, _ := strconv.Unquote(im.Path.Value); v == path {
+			return
+		}
+	}
+	spec := &ast.ImportSpec{Path: &ast.BasicLit{Kind: token.STRING, Value: strconv.Quote(path)}}
+	for _, d := range f.Decls {
+		if gd, ok := d.(*ast.GenDecl); ok && gd.Tok == token.IMPORT {
+			gd.Specs = append(gd.Specs, spec)
+			if !gd.Lparen.IsValid() {
+				gd.Lparen = gd.TokPos // force the parenthesised form
+			}
+			f.Imports = append(f.Imports, spec)
+			return
+		}
+	}
+	f.Decls = append([]ast.Decl{&ast.GenDecl{Tok: token.IMPORT, Specs: []ast.Spec{spec}}}, f.Decls...)
+	f.Imports = append(f.Imports, spec)
+}
+
 func main() {
 	repo := flag.String("repo", "/repo", "repository root")
 	out := flag.String("out", "", "output directory")
 	ov := flag.String("overlay", "", "overlay json to write")
 	src := flag.String("src", "_overlay", "directory with verifsched/ and verifshim/ sources")
+	goPoints := flag.Bool("gopoints", false, "insert a scheduling point at the start of every go func(){...} body")
 	pkgs := flag.String("pkgs", "traversal,bep44,.", "comma-separated package directories (relative to repo) to rewrite")
 	flag.Parse()
 	replace := map[string]string{}
@@ -74,6 +98,30 @@ func main() {
 			f, err := parser.ParseFile(fset, path, nil, parser.ParseComments)
 			must(err)
 			changed := false
+			// goroutine starts: `go func() { ... }()` bodies begin with a scheduling point, so that the
+			// explorer also owns the moment a spawned goroutine starts to run
+			if *goPoints {
+				nGo := 0
+				ast.Inspect(f, func(n ast.Node) bool {
+					g, ok := n.(*ast.GoStmt)
+					if !ok {
+						return true
+					}
+					if fl, ok := g.Call.Fun.(*ast.FuncLit); ok && fl.Body != nil {
+						pt := &ast.ExprStmt{X: &ast.CallExpr{
+							Fun:  &ast.SelectorExpr{X: ast.NewIdent("verifsched"), Sel: ast.NewIdent("Point")},
+							Args: []ast.Expr{&ast.BasicLit{Kind: token.STRING, Value: strconv.Quote("go")}},
+						}}
+						fl.Body.List = append([]ast.Stmt{pt}, fl.Body.List...)
+						nGo++
+					}
+					return true
+				})
+				if nGo > 0 {
+					astutilAddImport(f, mod+"/verifsched")
+					changed = true
+				}
+			}
 			for _, im := range f.Imports {
 				v, _ := strconv.Unquote(im.Path.Value)
 				if to, ok := rewrites[v]; ok {
